@@ -501,6 +501,17 @@ def mon_c08(m, out):
             if a.ended_ok:
                 out.violation('expiry-ignored', "%s: not over at t0+T=%s but the run reported success"
                               % (s, a.texp))
+            elif a.allowed == {'timeout'}:
+                # "... and ends with the timeout verdict": False, or TimeoutError
+                # from a critical scheduler - nothing else when no other cause exists
+                out.count('timeout verdicts checked for their form')
+                rend = a.rend
+                if rend['kind'] == 'run_raise' and not isinstance(rend.get('exc'), TimeoutError):
+                    out.violation('timeout-verdict', "%s timed out at t=%s (nothing else had failed) but its run "
+                                  "raised %r" % (s, a.texp, rend.get('exc')))
+                elif rend['kind'] == 'run_return' and rend.get('val') is not False:
+                    out.violation('timeout-verdict', "%s timed out at t=%s but its run returned %r"
+                                  % (s, a.texp, rend.get('val')))
         elif a.cause is not None:
             # converse: all over strictly before t0+T -> the timeout has no effect
             ta = a.ta
